@@ -117,6 +117,26 @@ pub(crate) mod b {
                 }
             }
         }
+        // overlapping but not nested shapes with a line inside both: every fragment exactly once (C09: never the same line twice)
+        fn count(trees: &[FragmentTree]) -> usize {
+            trees.iter().map(|t| 1 + count(&t.enclosing)).sum()
+        }
+        let l = |a: (f32, f32), b: (f32, f32)| FragmentSpan::new(Span::new(Cell::new(a.0 as i32, (a.1 / 2.0) as i32), '-'),
+            Fragment::Line(crate::fragment::Line::new(Point::new(a.0, a.1), Point::new(b.0, b.1), false)));
+        let scenarios: Vec<Vec<FragmentSpan>> = vec![
+            vec![rect(0.0, 0.0, 30.0, 30.0), rect(20.0, 20.0, 60.0, 60.0), l((22.0, 22.0), (28.0, 22.0))],
+            vec![l((10.0, 0.0), (0.0, 20.0)), l((16.0, 0.0), (6.0, 20.0)), l((7.0, 10.0), (9.0, 10.0))],
+            vec![rect(0.0, 0.0, 30.0, 30.0), circle(25.0, 25.0, 12.0), l((21.0, 24.0), (27.0, 24.0)), text(22, 13, "x")],
+            vec![rect(0.0, 0.0, 30.0, 30.0), rect(20.0, 20.0, 60.0, 60.0), rect(40.0, 0.0, 70.0, 30.0), l((42.0, 22.0), (58.0, 22.0)), l((22.0, 24.0), (28.0, 24.0))],
+        ];
+        for (si, sc) in scenarios.iter().enumerate() {
+            let trees = FragmentTree::enclose_fragments(sc.clone());
+            if count(&trees) != sc.len() {
+                println!("BOUNDED-WITNESS overlap scenario {}: {} fragments in, {} nodes in the forest", si, sc.len(), count(&trees));
+                panic!("every fragment exactly once");
+            }
+            n += 1;
+        }
         println!("BOUNDED-CASES {}", n);
     }
 }
